@@ -23,7 +23,28 @@ fi
 out="$B/htsim.test"
 extra=""
 if [ "${1:-}" = "race" ]; then out="$B/htsim.race.test"; extra="-race"; fi
-go1.26.8 test -c -vet=off -ldflags=-checklinkname=0 $modflag $extra -tags verif -overlay "$B/overlay/overlay.json" -o "$out.new" . 2>"$B/build.log" || {
+# VERIF_COVER=1 (tools/coverage.sh only, together with its own VERIF_BUILD): statement coverage of honeytrap's
+# packages, to find code the workloads never reach.  Registered checks never set it.
+if [ -n "${VERIF_COVER:-}" ]; then cm=count; [ "${1:-}" = "race" ] && cm=atomic; extra="$extra -cover -covermode=$cm -coverpkg=github.com/honeytrap/honeytrap/..."; fi
+ov="$B/overlay/overlay.json"
+if [ -n "${VERIF_COVER:-}" ]; then
+  # the cover tool does not read files that exist only in an overlay: materialise the overlaid tree in a scratch
+  # copy (removed right after the build) and build against that
+  scratch=$(mktemp -d /tmp/htcover.XXXXXX); trap 'rm -rf "$scratch"' EXIT
+  rsync -a --exclude .git "${VERIF_REPO:-/repo}/" "$scratch/"
+  python3 - "$ov" "${VERIF_REPO:-/repo}" "$scratch" <<'PY' || exit 2
+import json, os, shutil, sys
+ov, repo, scratch = sys.argv[1:4]
+for src, dst in json.load(open(ov))["Replace"].items():
+    t = os.path.join(scratch, os.path.relpath(src, repo))
+    os.makedirs(os.path.dirname(t), exist_ok=True)
+    shutil.copyfile(dst, t)
+PY
+  sed "s#=> /repo\$#=> ${scratch}#" go.mod > "$B/go.alt.mod"; cp go.sum "$B/go.alt.sum"
+  modflag="-modfile=$B/go.alt.mod"
+  echo '{"Replace":{}}' > "$B/overlay/empty.json"; ov="$B/overlay/empty.json"
+fi
+go1.26.8 test -c -vet=off -ldflags=-checklinkname=0 $modflag $extra -tags verif -overlay "$ov" -o "$out.new" . 2>"$B/build.log" || {
   cat "$B/build.log" >&2
   # diagnostics for environment trouble (module cache, disk, identity)
   { echo "--- build diagnostics"; id; echo "HOME=$HOME PWD=$PWD"; go1.26.8 env GOMODCACHE GOCACHE GOFLAGS GOPATH GOPROXY GONOSUMDB GOFLAGS GOTOOLCHAIN; ls -ld "$(go1.26.8 env GOMODCACHE)" "$(go1.26.8 env GOMODCACHE)/cache/download" 2>&1; ls "$(go1.26.8 env GOMODCACHE)" 2>&1 | head -5; ls "$(go1.26.8 env GOMODCACHE)/cache/download/github.com/op/go-logging/@v" 2>&1 | head; df -h / /tmp "$B" 2>&1 | tail -4; git -C /repo status --short 2>&1 | head -5; git -C /repo log --oneline 2>&1 | head -2; } >&2
